@@ -27,11 +27,13 @@ SPEC = Spec(
     rule="seeded scripts: start height 0..8, chain tip around the start height (tip = start-1, start, start+1, start+2, genesis only) or up to 40 above, "
          "side branches and reorgs before the round, memory window (prune), processed sets (none, prefix, holes, block below tip, tip, below start), "
          "block-source failure patterns (no node / drop mid-block / wrong block, then delivery), outstanding request + new headers, + reorg (code's own 10 s poll), "
-         "+ interrupt, source outage ending the block manager, restart flag via TriggerBlockSynchronize; "
+         "+ interrupt, source outage ending the block manager, restart flag via TriggerBlockSynchronize, "
+         "header changes (new tip / reorg) injected right after the k-th (k=1..3) LastHash/HashHeight/PreviousHash/Hash/Height call of the round itself "
+         "through a wrapper around the real headers.Repository; "
          "non-trivial = a round on a chain of >= 2 blocks; distinct = distinct op text",
     assumptions=[
         "the header repository and the block manager are environment: the harness reads the best chain and the in-memory window back after every header op and writes them into the op text; the model takes them as inputs (any view change between two steps is allowed in the theorems)",
-        "the walk-back of one round is modelled against one view (the reads are separate lock acquisitions in the code; PreviousHash links are immutable per hash, so a concurrent reorg can only make the planned chain stale, which the poll handles)",
+        "the walk-back reads the repository once per call in source order (planResE); theorems for arbitrary view changes between reads assume all views are views of one block tree (parent/height of a block never change) and PrunedFinal: a block whose predecessor is not in memory cannot be reorged out between two consecutive reads (ProcessHeader rejects headers whose predecessor is not in memory)",
         "complete(nil) from the block manager implies the block was recorded as processed (AppendBlockTxIDs precedes the downloader's nil return; C16)",
         "select is modelled as one event per iteration with no priority between ready cases",
         "thread-mode quiescence in the harness is detected by 300 ms without source/processor activity",
@@ -41,7 +43,8 @@ SPEC = Spec(
     static_checks=lambda facts: [
         (f"sync-shape:{k}", f"synchronizeBlocks changed shape: {k} = {facts.get('strs', {}).get(k, facts.get('ints', {}).get(k))!r}, the model assumes {v!r}")
         for k, v in (("syncWalkOrder", "start-test,PreviousHash,nil-fallback,processed-test,hash=prev,prepend,height--"),
-                     ("syncWalkStopOp", "<="), ("syncStartGuardOp", "<"), ("syncAbortGuard", "!aborted"), ("syncNilCompleteCheck", 1))
+                     ("syncWalkStopOp", "<="), ("syncStartGuardOp", "<"),
+                     ("syncLastHashExpr", "m.headers.LastHash()"), ("syncLastHeightExpr", "m.headers.HashHeight(lashHash)"), ("syncAbortGuard", "!aborted"), ("syncNilCompleteCheck", 1))
         if facts.get("strs", {}).get(k, facts.get("ints", {}).get(k)) != v],
 )
 
